@@ -66,8 +66,29 @@ Definition parse_hv (l : list N) : option (hs N N * list N) :=
 
 Definition I := expected_impls.
 
+(** [[9; kind; which; mode]]: comparing / hashing / formatting through a handle with a payload impl that answers
+    (mode 0) or panics (mode 1): the panic propagates, no count moves during or after, nothing dead is touched, and every
+    value is still destroyed exactly once afterwards.  kinds: 0 Arc, 1 OffsetArc, 2 ArcBorrow, 3 ArcUnion (only ==, !=,
+    Debug), 4 ThinArc, 5 fat header-slice Arc.  status 2: the kind does not have that operation. *)
+Definition run_effects (kind which mode : N) : list N :=
+  if (5 <? kind) || (7 <? which) || (1 <? mode) then [99] else
+  let applicable :=
+      if kind =? 0 then true
+      else if kind <=? 3 then (which =? 0) || (which =? 1) || (which =? 6)
+      else negb (which =? 7) in
+  [(if applicable then mode else 2); 1; 0; (if kind <=? 3 then 2 else 6)].
+
+(** [[8; x; y]]: one allocation held as First and as Second of an [ArcUnion<T, T>]: different variants are never
+    equal, whatever they point to; the same variant of the same allocation is *)
+Definition run_same_alloc_union (x y : N) : list N :=
+  if (2 <? x) || (2 <? y) then [99] else [0; 1; 1; 0].
+
 Definition run_cmp1 (op : list N) : list N :=
   match op with
+  | [9; kind; which; mode] => run_effects kind which mode
+  | 9 :: _ => [99]
+  | [8; x; y] => run_same_alloc_union x y
+  | 8 :: _ => [99]
   | cls :: kind :: same :: rest =>
     if 2 <? cls then [98] else
     let S := sig_of cls in
